@@ -239,7 +239,17 @@ func run(id, mode string, rest []string) int {
 	var fuzzViolations []violation
 	fuzzParts := map[string][2]int64{}
 	if tier == "thorough" && os.Getenv("VERIF_NOFUZZ") == "" {
-		fuzzViolations, fuzzParts = runFuzz(id, bin, filepath.Join(hdir, pkg), scratch, replayDir)
+		// coverage instrumentation needs a binary built with -fuzz
+		fbin := filepath.Join(scratch, strings.ToLower(id)+".fuzz.test")
+		fargs := []string{"test", "-c", "-tags", "verif", "-vet=off", "-fuzz", "Fuzz", "-o", fbin, pkg}
+		fcmd := exec.Command("go", fargs...)
+		fcmd.Dir = hdir
+		fcmd.Env = goEnv()
+		if out, err := fcmd.CombinedOutput(); err == nil {
+			fuzzViolations, fuzzParts = runFuzz(id, fbin, filepath.Join(hdir, pkg), scratch, replayDir)
+		} else if !strings.Contains(string(out), "no fuzz tests") && !strings.Contains(string(out), "will not fuzz") {
+			fmt.Printf("note: fuzz binary not built: %s\n", firstLines(string(out), 3))
+		}
 	}
 
 	// merge
@@ -492,7 +502,7 @@ func run(id, mode string, rest []string) int {
 	return 0
 }
 
-var fuzzStat = regexp.MustCompile(`execs: (\d+) .*new interesting: (\d+) \(total: (\d+)\)`)
+var fuzzStat = regexp.MustCompile(`execs: (\d+) \([^)]*\)(?:, new interesting: (\d+) \(total: (\d+)\))?`)
 
 // runFuzz runs the native fuzz targets of a property package.
 func runFuzz(id, bin, pkgDir, scratch, replayDir string) ([]violation, map[string][2]int64) {
@@ -532,7 +542,9 @@ func runFuzz(id, bin, pkgDir, scratch, replayDir string) ([]violation, map[strin
 		var execs, interesting int64
 		for _, m := range fuzzStat.FindAllStringSubmatch(text, -1) {
 			execs, _ = strconv.ParseInt(m[1], 10, 64)
-			interesting, _ = strconv.ParseInt(m[3], 10, 64)
+			if m[3] != "" {
+				interesting, _ = strconv.ParseInt(m[3], 10, 64)
+			}
 		}
 		parts[name] = [2]int64{execs, interesting}
 		if err != nil {
